@@ -16,7 +16,7 @@ PYTHONPATH=$WT timeout 3000 /venv/bin/python -m pytest -q -p no:cacheprovider --
 PYTHONPATH=$WT timeout 900 /venv/bin/python -m pytest -q -p no:cacheprovider tests/mps/test_save_load.py 2>&1 | grep -E "passed|failed|error" | tail -1 >> /tmp/confirm-$ID-$AB.tests.log
 T1=$(sed -n 1p /tmp/confirm-$ID-$AB.tests.log); T2=$(sed -n 2p /tmp/confirm-$ID-$AB.tests.log)
 OK=no
-if [ $P -eq 0 ] && [ $C -ne 0 ] && echo "$T1" | grep -q "356 passed" && ! echo "$T1" | grep -q failed && echo "$T2" | grep -q "6 passed"; then OK=yes; fi
+if [ $P -eq 0 ] && [ $C -ne 0 ] && echo "$T1" | grep -q "356 passed" && ! echo "$T1" | grep -qE "[0-9]+ failed|[0-9]+ error" && echo "$T2" | grep -q "6 passed"; then OK=yes; fi
 echo "$ID $AB: demo pristine exit=$P changed exit=$C tests: [$T1] [$T2] confirmed=$OK"
 if [ $OK = yes ]; then
   mkdir -p $DST
